@@ -46,10 +46,42 @@ def _base_class(prog: Program, mod: Module, cls: ast.ClassDef) -> Optional[Tuple
 
 
 def _returned_dict(fn: ast.AST) -> ast.Dict:
+    """the dictionary literal a method returns; `d = {...}; d[k] = v ...; return d` is folded into one literal
+    (unconditional stores only - conditional ones are listed by `_conditional_stores`)"""
     rets = [n for n in walk_no_nested(fn) if isinstance(n, ast.Return) and n.value is not None]
+    if len(rets) == 1 and isinstance(rets[0].value, ast.Name):
+        name = rets[0].value.id
+        binds = [st for st in fn.body if isinstance(st, ast.Assign) and len(st.targets) == 1 and dotted(st.targets[0]) == name]
+        if len(binds) == 1 and isinstance(binds[0].value, ast.Dict):
+            lit = ast.Dict(keys=list(binds[0].value.keys), values=list(binds[0].value.values))
+            ast.copy_location(lit, binds[0].value)
+            for st in fn.body:
+                if isinstance(st, ast.Assign) and len(st.targets) == 1 and isinstance(st.targets[0], ast.Subscript) and dotted(st.targets[0].value) == name:
+                    lit.keys.append(st.targets[0].slice)
+                    lit.values.append(st.value)
+            for test, key, _val, _node in _conditional_stores(fn):
+                lit.keys.append(ast.Constant(value=key))
+                lit.values.append(ast.Constant(value=None))
+            return lit
     if len(rets) != 1 or not isinstance(rets[0].value, ast.Dict):
         raise AnalysisError(f"{fn.name}: expected a single `return {{...}}`")
     return rets[0].value
+
+
+def _conditional_stores(fn: ast.AST):
+    """[(test, key, value, node)] for `if test: d[key] = value` at the top level of a method that returns `d`"""
+    rets = [n for n in walk_no_nested(fn) if isinstance(n, ast.Return) and n.value is not None]
+    out = []
+    if len(rets) == 1 and isinstance(rets[0].value, ast.Name):
+        name = rets[0].value.id
+        for st in fn.body:
+            if isinstance(st, ast.If) and not st.orelse and len(st.body) == 1:
+                inner = st.body[0]
+                if isinstance(inner, ast.Assign) and len(inner.targets) == 1 and isinstance(inner.targets[0], ast.Subscript) and dotted(inner.targets[0].value) == name and isinstance(inner.targets[0].slice, ast.Constant):
+                    out.append((st.test, inner.targets[0].slice.value, inner.value, st))
+            elif isinstance(st, (ast.If, ast.For, ast.While, ast.Try)) and any(isinstance(x, ast.Subscript) and isinstance(x.ctx, ast.Store) and dotted(x.value) == name for x in ast.walk(st)):
+                raise AnalysisError(f"{fn.name}: `{short(st, 60)}` writes into the returned dictionary in a way that is not understood")
+    return out
 
 
 def _dict_keys(prog: Program, mod: Module, cls: ast.ClassDef, meth: str) -> Set[str]:
@@ -153,6 +185,25 @@ def dict_keys(prog: Program) -> RuleResult:
             )
         else:
             res.ok(construct, f"{sorted(written)}")
+        # a key written only under a condition: what the reader assumes when it is absent must be what the
+        # condition means
+        td = method_def(cls, "to_dict")
+        fd = method_def(cls, "_from_dict")
+        for test, key, val, node in (_conditional_stores(td) if td is not None else []):
+            construct = f"{MODEL}:{cname}/conditional-key[{key}]"
+            default = None
+            for c in walk_no_nested(fd) if fd is not None else []:
+                if isinstance(c, ast.Call) and isinstance(c.func, ast.Attribute) and c.func.attr == "get" and c.args and isinstance(c.args[0], ast.Constant) and c.args[0].value == key and len(c.args) == 2:
+                    default = c.args[1]
+            field = dotted(test) if isinstance(test, ast.Attribute) else (dotted(test.operand) if isinstance(test, ast.UnaryOp) and isinstance(test.op, ast.Not) else None)
+            if field is None or not field.startswith("self.") or not isinstance(default, ast.Constant) or not isinstance(val, ast.Constant):
+                raise AnalysisError(f"{cname}.to_dict: the key {key!r} is written only when `{short(test, 50)}`; what readers assume when it is absent is not decided")
+            written_when_truthy = isinstance(test, ast.Attribute)
+            absent_means = not written_when_truthy  # truth value of the field when the key is absent
+            if bool(default.value) != absent_means or bool(val.value) != written_when_truthy:
+                res.fail(construct, f"to_dict writes {key!r} only when `{short(test, 40)}`, and _from_dict reads an absent {key!r} as {default.value!r}: an object with `{field}` {'false' if written_when_truthy else 'true'} comes back with the opposite flag", mod, node)
+            else:
+                res.ok(construct, f"absent {key!r} is read as {default.value!r}, which is what `{short(test, 40)}` being false means")
     res.floor(4)
     return res
 
@@ -243,6 +294,9 @@ def tree_write_args(prog: Program) -> RuleResult:
                 )
                 if "color" not in names:
                     problems.append("features does not contain 'color': colour annotations are lost")
+                edits = [c for c in walk_no_nested(fn) if isinstance(c, ast.Call) and isinstance(c.func, ast.Attribute) and c.func.attr in TREE_EDITORS]
+                if edits:
+                    problems.append(f"the tree is edited before it is written (`{short(edits[0], 50)}`): what is read back is not the tree of the object")
                 if problems:
                     res.fail(construct, f"`{short(call, 80)}`: " + "; ".join(problems), mod, call)
                 else:
@@ -868,6 +922,30 @@ def field_source(prog: Program) -> RuleResult:
                 res.fail(construct, "; ".join(problems), mod, call)
             else:
                 res.ok(construct, f"parse of `{short(src, 40)}` alone")
+    # every mapping field that to_dict writes is read back through its parser, from its own entry
+    for cname in ("ReconciliationInput", "SuperReconciliationInput", "ReconciliationOutput", "SuperReconciliationOutput"):
+        cls = prog.cls(model, cname)
+        fn = method_def(cls, "_from_dict")
+        if fn is None:
+            continue
+        data = func_params(fn)[1] if len(func_params(fn)) > 1 else "data"
+        try:
+            lit = _returned_dict(fn)
+        except AnalysisError:
+            continue
+        parsed_keys = set()
+        for call in walk_no_nested(fn):
+            if isinstance(call, ast.Call) and dotted(call.func) in ("parse_tree_mapping", "parse_synteny_mapping") and call.args:
+                src = call.args[-1]
+                if isinstance(src, ast.Subscript) and dotted(src.value) == data and isinstance(src.slice, ast.Constant):
+                    parsed_keys.add(src.slice.value)
+        for k in lit.keys:
+            if isinstance(k, ast.Constant) and k.value in ("leaf_object_species", "object_species", "leaf_syntenies", "syntenies"):
+                construct = f"{model}:{cname}._from_dict/parsed-from-own-entry[{k.value}]"
+                if k.value in parsed_keys:
+                    res.ok(construct, f"parser applied to {data}[{k.value!r}]")
+                else:
+                    res.fail(construct, f"the field {k.value!r} is not the parse of `{data}[{k.value!r}]`: an explicit assignment written by to_dict goes through something else (an inference from names, a merge) on the way back", mod, fn)
     # parsing does not decorate the trees it builds
     for cname in ("ReconciliationInput", "SuperReconciliationInput", "ReconciliationOutput", "SuperReconciliationOutput"):
         cls = prog.cls(model, cname)
@@ -876,11 +954,18 @@ def field_source(prog: Program) -> RuleResult:
             if fn is None:
                 continue
             construct = f"{model}:{cname}.{mname}/tree-as-written"
+            # the method itself and the module-level helpers it calls (a `_read_tree(newick)` wrapper)
+            bodies = [fn]
+            for c in walk_no_nested(fn):
+                if isinstance(c, ast.Call) and isinstance(c.func, ast.Name):
+                    helper = resolve_callee(prog, mod, c.func)
+                    if helper is not None and isinstance(helper[1], FuncNode) and helper[0] is mod and helper[1] not in bodies:
+                        bodies.append(helper[1])
             deco = [
-                c for c in walk_no_nested(fn)
+                c for body in bodies for c in walk_no_nested(body)
                 if isinstance(c, ast.Call) and isinstance(c.func, ast.Attribute) and c.func.attr in TREE_EDITORS
             ] + [
-                st for st in walk_no_nested(fn)
+                st for body in bodies for st in walk_no_nested(body)
                 if isinstance(st, ast.Assign) and any(isinstance(t, ast.Attribute) and t.attr in ("name", "dist", "support") for t in st.targets)
             ]
             if deco:
